@@ -126,6 +126,11 @@ var CfgC11 = reg(&MachineCfg{
 
 var CfgC06 = reg(&MachineCfg{
 	Prop: "C06",
+	Setup: func(g *G, opt *world.Options) {
+		if g.chance("pnft-genesis-mode", 18) {
+			opt.PnftGenesis = g.genPnftGenesis(app.MakeEncodingConfig().Codec, false)
+		}
+	},
 	Gens: []interface{}{"pnft", 66, "commit", 12, "authz", 10, "crash", 2, "restart", 2, "bank", 2, "export", 2, "sim_pnft", 5},
 	Bias: map[string]int{"right-signers": 68, "exec": 15, "pnft-handover": 5, "pnft-transfer": 6, "former-owner": 35},
 	Rule: "PNFT state machine: the seven message types with actors chosen independently of signers, hand-over chains, burn and re-mint, former owners and creators, ghost receivers, upper-case spellings, authz grant/exec; oracle = transition validity (actor is the current owner and stands behind the tx) + full decoded-store agreement after every DeliverTx; non-trivial = an ownership hand-over followed by a refused attempt of the former owner",
@@ -136,6 +141,11 @@ var CfgC06 = reg(&MachineCfg{
 
 var CfgC12 = reg(&MachineCfg{
 	Prop: "C12",
+	Setup: func(g *G, opt *world.Options) {
+		if g.chance("pnft-genesis-mode", 20) {
+			opt.PnftGenesis = g.genPnftGenesis(app.MakeEncodingConfig().Codec, false)
+		}
+	},
 	Gens: []interface{}{"pnft", 73, "commit", 16, "crash", 2, "export", 3, "bank", 1, "walks", 2, "sim_pnft", 3},
 	Bias: map[string]int{"right-signers": 95, "exec": 2, "adversarial-ids": 1, "by-owner": 90, "former-owner": 5, "pnft-transfer": 5},
 	Rule: "PNFT machine over adversarial identifiers (prefixes of one another, separators, invalid UTF-8, 300-byte ids, NUL while not excluded by an open finding); after every tx the decoded store equals the model, after every commit every single-item view and listing (tokens of denom, by owner, denoms paged, denoms by owner) is compared for all pool arguments; completeness: a fresh pair minted by the denom owner is accepted; non-trivial = >=2 denoms, >=3 tokens minted, a transfer and a burn",
@@ -161,6 +171,20 @@ var agreement = []string{"C01", "C13", "C03", "C04", "C05", "C12"}
 
 var CfgC08 = reg(&MachineCfg{
 	Prop: "C08", Also: agreement,
+	Setup: func(g *G, opt *world.Options) {
+		// the first chain may itself start from a generated genesis (owners and writers with
+		// addresses of any legal length, tombstones, documents the handlers would not build)
+		cdc := app.MakeEncodingConfig().Codec
+		if g.chance("did-genesis-mode", 20) {
+			opt.DidGenesis = g.genDidGenesis(cdc, world.DIDKeys())
+		}
+		if g.chance("aol-genesis-mode", 25) {
+			opt.AolGenesis = g.genAolGenesis(cdc, false)
+		}
+		if g.chance("pnft-genesis-mode", 20) {
+			opt.PnftGenesis = g.genPnftGenesis(cdc, false)
+		}
+	},
 	Gens: []interface{}{"aol", 26, "did", 26, "pnft", 30, "commit", 8, "export", 8, "bank", 2},
 	Bias: map[string]int{"right-signers": 95, "exec": 2, "right-proof": 85, "did-deactivate": 18},
 	Rule: "mixed histories over all custom modules (transferred tokens, handed-over and deleted denoms, burned tokens, tombstones, rich documents, empty/huge record fields), export at random points, optionally chained; oracle = double-export equality, module genesis validation, InitChain succeeds, probe-set answers byte-identical before/after, re-export identical, models agree with the imported chain; non-trivial = an export with entities of >=3 modules and one of {transferred token, handed-over denom, tombstone, writer deleted}",
@@ -233,6 +257,10 @@ var CfgC09 = reg(&MachineCfg{
 		if g.chance("aol-genesis-mode", 20) {
 			opt.AolGenesis = g.genAolGenesis(cdc, false)
 		}
+		if g.chance("pnft-genesis-mode", 25) {
+			// every genesis InitChain accepts, also one the offline validation would refuse
+			opt.PnftGenesis = g.genPnftGenesis(cdc, true)
+		}
 	},
 	Gens: withGens("commit", 18, "export", 4, "crash", 1),
 	Bias: map[string]int{"right-signers": 88, "exec": 5, "right-proof": 75, "multi": 12},
@@ -246,6 +274,11 @@ var CfgC09 = reg(&MachineCfg{
 
 var CfgC10 = reg(&MachineCfg{
 	Prop: "C10", Also: agreement, Twin: true,
+	Setup: func(g *G, opt *world.Options) {
+		if g.chance("pnft-genesis-mode", 15) {
+			opt.PnftGenesis = g.genPnftGenesis(app.MakeEncodingConfig().Codec, true)
+		}
+	},
 	Gens:       withGens("commit", 14, "crash", 5, "crash_redeliver", 6, "crash_endblock", 3, "restart", 2, "export", 1),
 	Bias:       map[string]int{"right-signers": 92, "exec": 3, "right-proof": 80},
 	Rule:       "histories with stop points after Commit, after BeginBlock, after any prefix of a block's txs and after EndBlock-before-Commit: the instance is abandoned and a new application is opened on the same database; oracle = height, app hash and every mounted store equal the committed snapshot, the re-delivered block reproduces its results, and every later block hash equals a twin that never stopped; non-trivial = a crash inside a block after >=1 delivered tx",
